@@ -35,6 +35,13 @@ Clauses(e) ==
           <<"centre-is-one", e.raised \/ ~e.finite \/ e.periodic \/ e.N % 2 = 0 \/ e.N < 3 \/ Small(e.centre_q - 1000000000, 1000)>>,
           <<"enbw-at-least-one", e.raised \/ ~e.finite \/ e.N < 3 \/ e.enbw_q >= 1000000000 - 1000>>,
           <<"window-object-consistent", e.raised \/ ~e.finite \/ e.object_ok>> }
+    ELSE IF e.ev = "formula" THEN
+        \* parametrised windows at the ends of their parameter ranges (Tukey r next to 0 and 1, Kaiser beta up to 600,
+        \* Taylor nbar up to 24): the closed form, evaluated independently in floating point (dev in 1e-9 units)
+        { <<"no-exception", ~e.raised>>,
+          <<"length", e.raised \/ e.len = e.N>>,
+          <<"equals-the-closed-form", e.raised \/ e.len # e.N \/ Small(e.dev, 100)>>,
+          <<"symmetric", e.raised \/ e.len # e.N \/ Small(e.sym_dev, 100)>> }
     ELSE { <<"unknown-event", FALSE>> }
 
 VARIABLES l, fails
